@@ -369,7 +369,7 @@ func (f *FuncCtx) countCall(text string, args []Val, e *ast.CallExpr, env *Env) 
 		}
 	}
 	// wildcard counters: ncalls("*.Clone") counts every call whose callee text ends in ".Clone"
-	for tk := range f.trackCall {
+	for _, tk := range sortedKeys(f.trackCall) {
 		if strings.HasPrefix(tk, "*.") && strings.HasSuffix(text, tk[1:]) {
 			wk := "calls:" + tk
 			cur := "0"
